@@ -2,6 +2,7 @@
   seedtool.py verify <src_dir> <name>      confirm a sub-agent's change in a scratch worktree; keep as seeded/<name>/
   seedtool.py run <name> <Cxx> [<Cyy>...]  apply seeded/<name>/patch.diff to /repo, run the checks, undo
   seedtool.py matrix                        run every seeded change against the check of its property
+  seedtool.py matrix-new                    the same for the seeded changes seeded/MATRIX.json does not list yet (merged into it)
 """
 import json
 import os
@@ -90,11 +91,17 @@ if __name__ == "__main__":
         sys.exit(0 if verify(sys.argv[2], sys.argv[3]) else 1)
     if sys.argv[1] == "run":
         run(sys.argv[2], sys.argv[3:])
-    if sys.argv[1] == "matrix":
+    if sys.argv[1] in ("matrix", "matrix-new"):
+        # matrix-new: only the seeded changes MATRIX.json does not list yet; results are merged into it
         tier = sys.argv[2] if len(sys.argv) > 2 else "quick"
         out = {}
+        mpath = os.path.join(VERIF, "seeded", "MATRIX.json")
+        have = json.load(open(mpath)) if sys.argv[1] == "matrix-new" and os.path.exists(mpath) else {}
+        out.update(have)
         for name in sorted(os.listdir(os.path.join(VERIF, "seeded"))):
             if not os.path.isdir(os.path.join(VERIF, "seeded", name)):
+                continue
+            if name in have:
                 continue
             meta = json.load(open(os.path.join(VERIF, "seeded", name, "meta.json")))
             pid = meta["property"]
